@@ -23,7 +23,7 @@ HERE = os.path.dirname(os.path.dirname(os.path.abspath(__file__)))
 if HERE not in sys.path:
     sys.path.insert(0, HERE)
 
-STORAGES = ('local', 'fsspec', 'none')
+STORAGES = ('local', 'fsspec', 'none', 'counted')
 
 
 # ------------------------------------------------------------------ generation
@@ -135,6 +135,14 @@ def make_storage(kind, d):
         return None
     if kind == 'local':
         return LocalStorage(os.path.join(d, 'store'))
+    if kind == 'counted':
+        class CountedStorage(LocalStorage):
+            """a user subclass of the provided LocalStorage with container manners: len() is the number of
+            cached results, so a brand-new store is FALSY"""
+
+            def __len__(self):
+                return len(self.find_keys())
+        return CountedStorage(os.path.join(d, 'store'))
     from pathlib import Path
     from fsspec.implementations.local import LocalFileSystem
 
@@ -389,7 +397,15 @@ def run(ctx):
     t0 = time.time()
     if ctx.get('replay'):
         rp = json.load(open(ctx['replay']))
-        case = (rp.get('replay') or {}).get('case')
+        rep = rp.get('replay') or {}
+        if rep.get('kind') == 'main-script':
+            from props import c08x
+            rs = c08x.run_scripts((rep['backend'],))
+            if any(r.get('infra') for r in rs):
+                return dict(infra_error=rs[0]['infra'])
+            return dict(evaluations=1, distinct_nontrivial=1, rule='replay of the __main__ script history', samples=rs,
+                        violations=[dict(what=w, replay=rep) for r in rs for w in c08x.monitor(r)], disagreements=[])
+        case = rep.get('case')
         if case is None:
             return dict(infra_error='replay file holds no history case')
         recs = [dict(case=case, real=[show(o) for o in run_real(case)], ref=[show(o) for o in reference(case)])]
@@ -406,11 +422,27 @@ def run(ctx):
         base = gen_case(rng, max_len)
         for st in STORAGES:          # the same history on every storage provider
             cases.append(dict(base, storage=st))
-    recs, errors = run_parallel(cases, 14, 50 if tier == 'quick' else 800)
+    # alongside: the history on a generated __main__ script with spawn / fork workers (props/c08x.py)
+    import threading
+    from props import c08x
+    sbox = {}
+    sth = threading.Thread(target=lambda: sbox.update(recs=c08x.run_scripts()))
+    sth.start()
+    recs, errors = run_parallel(cases, 13, 50 if tier == 'quick' else 800)
+    sth.join()
     infra = [r for r in recs if r.get('infra')]
-    if errors or infra:
-        return dict(infra_error='; '.join(errors + [r['infra'] for r in infra[:2]]))
+    sinfra = [r['infra'] for r in sbox.get('recs', []) if r.get('infra')] + ([] if 'recs' in sbox else ['script history did not finish'])
+    if errors or infra or sinfra:
+        return dict(infra_error='; '.join(errors + [r['infra'] for r in infra[:2]] + sinfra))
     viol, dis = evaluate(recs)
+    import driver
+    mp = c08x.model_pattern(driver.run_lines([c08x.MODEL])[0])
+    for r in sbox['recs']:
+        rp_ = c08x.real_pattern(r)
+        if rp_ != mp:
+            dis.append(dict(family='main-script', backend=r['backend'], real=rp_, model=mp, line=c08x.MODEL))
+        for what in c08x.monitor(r):
+            viol.insert(0, dict(what=what, replay=dict(kind='main-script', backend=r['backend'], steps=r['steps'], case=None)))
     if (dis or not ctx['proof_ok']) and not viol:
         rng2 = random.Random(seed * 7919 + 13)
         more = []
@@ -429,6 +461,7 @@ def run(ctx):
         runs = [op for op in c['ops'] if op[0] == 'R']
         return c['storage'] != 'none' and len(runs) >= 2 and (('U' in kinds) or any(op[1] for op in runs))
     dist = dict(
+        main_script_histories=[r['backend'] for r in sbox['recs']],
         histories=len(recs), operations=sum(len(r['case']['ops']) for r in recs),
         by_storage={s: sum(1 for r in recs if r['case']['storage'] == s) for s in STORAGES},
         runs_by_backend={b: sum(1 for r in recs for op in r['case']['ops'] if op[0] == 'R' and (op[5] if len(op) > 5 else 'serial') == b) for b in ('serial', 'fork')},
@@ -445,7 +478,7 @@ def run(ctx):
     )
     return dict(
         evaluations=len(recs), distinct_nontrivial=len({json.dumps(r['case'], sort_keys=True) for r in recs if nontrivial(r['case'])}),
-        rule='generated operation histories (8 tasks with dependencies, 3 task types with cache kind pickle/second BaseCache subclass/None each, ~10% always-failing tasks, per-run failure sets chosen through the Lab context, 30% of the histories mixing serial and real fork runs), each history on ONE Lab and ONE storage object, each replayed on LocalStorage, FsspecStorage(LocalFileSystem) and storage=None; non-trivial = real storage, >= 2 runs and at least one bust_cache run or uncache_tasks call',
+        rule='generated operation histories (8 tasks with dependencies, 3 task types with cache kind pickle/second BaseCache subclass/None each, ~10% always-failing tasks, per-run failure sets chosen through the Lab context, 30% of the histories mixing serial and real fork runs), each history on ONE Lab and ONE storage object, each replayed on LocalStorage, FsspecStorage(LocalFileSystem), storage=None and a LocalStorage subclass that is falsy while empty (defines __len__); non-trivial = real storage, >= 2 runs and at least one bust_cache run or uncache_tasks call',
         samples=[dict(line=encode(r['case']), real=r['real']) for r in recs[:2]],
         violations=viol[:5], disagreements=dis[:5], distribution=dist,
         assumptions=['run() is the deterministic family of harness/histtasks.py (value = 1000*k + run stamp + dependency results)',
